@@ -6,6 +6,7 @@ import (
 	"fmt"
 	"net/netip"
 	"os"
+	"reflect"
 	"sort"
 	"strconv"
 	"strings"
@@ -13,6 +14,7 @@ import (
 	"sync/atomic"
 	"syscall"
 	"testing"
+	"unsafe"
 
 	"github.com/slackhq/nebula/cert"
 	"github.com/slackhq/nebula/config"
@@ -219,7 +221,7 @@ type c19Stat struct {
 	groupDenied                                       int64
 	dlaReloads, meaningOnlyReloads                    int64 // default_local_cidr_any toggles; reloads with identical rule text that change what the rules allow
 	mustDropMeaningOnly, mustPassSettingNoEffect      int64
-	versions                                          map[uint16]bool
+	versions                                          map[uint64]bool
 }
 
 type c19World struct {
@@ -331,7 +333,7 @@ func (w *c19World) reload() {
 }
 
 func c19NewWorld(c *mc.Check, tb testing.TB, alpha []c19Pkt, fullNode, useCache bool, total *c19Stat) *c19World {
-	w := &c19World{c: c, tb: tb, alpha: alpha, st: &c19Stat{versions: map[uint16]bool{}}, total: total, flows: map[firewall.Packet]*c19Flow{}, rs: c19InitialSet, unsafe: true, useCach: useCache}
+	w := &c19World{c: c, tb: tb, alpha: alpha, st: &c19Stat{versions: map[uint64]bool{}}, total: total, flows: map[firewall.Packet]*c19Flow{}, rs: c19InitialSet, unsafe: true, useCach: useCache}
 	if fullNode {
 		w.net = vNewNet(tb, c.Seed(), c19Spec())
 		w.cfg, w.f = w.net.nodes[0].c, w.net.nodes[0].f
@@ -682,7 +684,7 @@ func (w *c19World) apply(e c19Ev) {
 	case 'J':
 		// far-away start state: as if (Arg - current) further reloads that changed nothing about the rules had happened with
 		// no traffic in between — the private counter is set directly (DESIGN §2.3)
-		w.f.firewall.rulesVersion = uint16(e.Arg)
+		c19SetVersion(w.c, w.f.firewall, uint64(e.Arg)) // (through reflection: the counter's integer type is the implementation's business)
 		w.ver = uint16(e.Arg)
 		w.jumped = true
 	case 'K':
@@ -690,7 +692,7 @@ func (w *c19World) apply(e c19Ev) {
 	}
 	// (w.ver, the reference's own count of effective reloads, decides where a wrap is tolerated; the implementation's counter
 	// is only recorded)
-	w.st.versions[w.f.firewall.rulesVersion] = true
+	w.st.versions[c19Version(w.c, w.f.firewall)] = true
 }
 
 func (w *c19World) label(e c19Ev) string {
@@ -781,7 +783,7 @@ func TestVerifC19(t *testing.T) {
 	c.Assume("routine-local cache (thorough only): modelled as the two per-direction maps handed to Drop, cleared by an explicit cache-tick event; a verdict served from a stale cache entry is not judged (the cache is not version-aware by design and bounded by its period)")
 	c.Assume("packets whose local address the node's certificate no longer covers (after the unsafe-network change) must be refused, but that is C17's subject: it is reported under its own signature")
 
-	st := &c19Stat{versions: map[uint16]bool{}}
+	st := &c19Stat{versions: map[uint64]bool{}}
 	c19Mint()
 	sets := []int{0, 1, 2, 3, 5}
 	if c.Thorough() {
@@ -896,3 +898,16 @@ func TestVerifC19(t *testing.T) {
 		c.Require(kinds >= 5, "only %d distinct outcome kinds", kinds)
 	}
 }
+
+// c19VersionField reaches Firewall.rulesVersion through reflection so that the harness keeps building when the counter's
+// integer type changes (its width is exactly what a wrap-around regression would touch).
+func c19VersionField(c *mc.Check, fw *Firewall) reflect.Value {
+	f := reflect.ValueOf(fw).Elem().FieldByName("rulesVersion")
+	if !f.IsValid() || !f.CanAddr() || !f.CanUint() {
+		c.Broken("Firewall.rulesVersion is not an unsigned integer field any more")
+	}
+	return reflect.NewAt(f.Type(), unsafe.Pointer(f.UnsafeAddr())).Elem()
+}
+
+func c19SetVersion(c *mc.Check, fw *Firewall, v uint64) { c19VersionField(c, fw).SetUint(v) }
+func c19Version(c *mc.Check, fw *Firewall) uint64      { return c19VersionField(c, fw).Uint() }
